@@ -362,6 +362,43 @@ Proof.
   eapply cube_lits_CubeAt; eauto.
 Qed.
 
+(** [pick_cube_dd_set], spelled out: false iff false, implicant, and at every
+    node where the value is not forced the polarity of the literal set *)
+Theorem pick_dd_set_bdd_ok : forall s e set L s' r tr, BddOK s -> good_bdd s e -> good_bdd s set ->
+  cube_lits view_plain (S (nlevels s)) s set = Some L ->
+  pick_cube_dd_set_bdd s e set = Some (s', r, tr) ->
+  BddOK s' /\ extends s s' /\ good_bdd s' r /\
+  (forall a, den_bdd s' r a = true -> den_bdd s' e a = true) /\
+  ((forall a, den_bdd s' r a = false) <-> (forall a, den_bdd s e a = false)) /\
+  ((exists a0, den_bdd s e a0 = true) -> forall a, den_bdd s' r a = sat_trace a tr) /\
+  forall p, In p tr -> call_ok view_plain good_bdd den_bdd s p /\
+    (sp_asked p = true -> sp_val p = Some (lit_pol L (sp_level p))).
+Proof.
+  intros s e set L s' r tr B G Gs El E.
+  rewrite (pick_dd_set_bdd_eq s e set L B G Gs El) in E.
+  destruct (pick_cube_dd_bdd unit (mask_choice (lit_pol L)) s tt e) as [[[[s1 r1] tr1] []]|] eqn:Ed;
+    [|discriminate]. simpl in E. inversion E; subst s1 r1 tr1. clear E.
+  destruct (pick_dd_bdd_implicant unit (mask_choice (lit_pol L)) s tt e s' r tr tt B G Ed)
+    as [B' [X [G' [Hi Hf]]]].
+  split; [exact B'|]. split; [exact X|]. split; [exact G'|]. split; [exact Hi|]. split; [exact Hf|].
+  destruct (pick_cube_bdd_total unit (mask_choice (lit_pol L)) s tt e B G) as [[[[cb tr0] []]|] Ep].
+  - destruct (pick_dd_bdd_same_cube unit (mask_choice (lit_pol L)) s tt e cb tr0 tt B G Ep)
+      as [s2 [r2 [P [_ [_ [_ D]]]]]].
+    rewrite Ed in P. inversion P; subst s2 r2 tr0. clear P.
+    destruct (pick_cube_bdd_some unit (mask_choice (lit_pol L)) s tt e cb tr tt B G Ep) as [R [Lc Wc]].
+    destruct (run_bdd_levels unit (mask_choice (lit_pol L)) s tt e tr tt B R G) as [A C].
+    split.
+    + intros _ a. apply eq_true_iff_eq. rewrite D.
+      apply (agrees_sat_trace s a cb tr (incr_from_nodup _ _ A) C Wc).
+    + intros p Hp. split.
+      * apply (run_bdd_calls unit (mask_choice (lit_pol L)) s tt e tr tt B R G p Hp).
+      * apply (run_mask_vals view_plain (lit_pol L) s tt e tr tt R p Hp).
+  - rewrite (pick_dd_bdd_false unit (mask_choice (lit_pol L)) s tt e B G Ep) in Ed.
+    inversion Ed; subst. split; [|intros p []].
+    intros [a0 Ha0]. rewrite (proj1 (pick_cube_bdd_none_iff unit (mask_choice (lit_pol L)) s' tt r B G) Ep) in Ha0.
+    discriminate.
+Qed.
+
 (** ** [pick_cube_uniform] *)
 
 Lemma count_bdd_spec : forall s e, BddOK s -> good_bdd s e ->
